@@ -47,6 +47,10 @@ pub enum Routes {
     Loop2,
     /// every ring router forwards the destination subnet to the next router of the ring
     RingLoop,
+    /// routes are correct but the datagram is addressed to an address of the destination
+    /// subnet that no machine owns (the last hop's ARP gets no answer); every host also
+    /// listens on the wildcard address
+    Unowned,
 }
 
 #[derive(Clone, Debug)]
@@ -90,6 +94,9 @@ fn topo(shape: &Shape) -> Topo {
 
 fn host_ip(h: usize) -> Ipv4Address {
     Ipv4Address::new([10, h as u8, 0, 10])
+}
+fn ghost_ip(net: usize) -> Ipv4Address {
+    Ipv4Address::new([10, net as u8, 0, 99])
 }
 fn router_ip(r: usize, net: usize) -> Ipv4Address {
     Ipv4Address::new([10, net as u8, 0, 1 + r as u8])
@@ -150,9 +157,15 @@ impl Protocol for HostApp {
         let udp = machine.protocol::<Udp>().unwrap();
         udp.listen(self.id(), Endpoint::new(host_ip(self.host), PORT), machine.clone())
             .map_err(|_| StartError::Other)?;
+        let unowned = self.cfg.routes == Routes::Unowned;
+        if unowned {
+            udp.listen(self.id(), Endpoint::new(Ipv4Address::CURRENT_NETWORK, PORT), machine.clone())
+                .map_err(|_| StartError::Other)?;
+        }
         initialized.wait().await;
         if self.host == self.cfg.src {
-            let eps = Endpoints::new(Endpoint::new(host_ip(self.host), 4000), Endpoint::new(host_ip(self.cfg.dst), PORT));
+            let target = if unowned { ghost_ip(self.cfg.dst) } else { host_ip(self.cfg.dst) };
+            let eps = Endpoints::new(Endpoint::new(host_ip(self.host), 4000), Endpoint::new(target, PORT));
             match udp.open_for_sending(self.id(), eps, machine.clone()).await {
                 Ok(s) => {
                     if let Err(e) = s.send(Message::new(TAG.to_vec()), machine.clone()) {
@@ -242,7 +255,7 @@ impl Scenario for RouteSc {
                 });
                 if net == dst_net {
                     match cfg.routes {
-                        Routes::Correct => {}
+                        Routes::Correct | Routes::Unowned => {}
                         Routes::Missing(mr) => {
                             if mr == r {
                                 entry = None;
@@ -394,7 +407,16 @@ impl Scenario for RouteSc {
                 }
             }
         }
-        if let Some(g) = got.iter().find(|g| g.0 != cfg.dst) {
+        if cfg.routes == Routes::Unowned {
+            if let Some(g) = got.first() {
+                viols.push(Violation::new(
+                    "delivered-to-destination",
+                    "ArpRouter::demux",
+                    "datagram-for-an-unowned-address-delivered",
+                    format!("host {} received the datagram addressed to {}, which no machine owns ({} deliveries in all)", g.0, ghost_ip(cfg.dst), got.len()),
+                ));
+            }
+        } else if let Some(g) = got.iter().find(|g| g.0 != cfg.dst) {
             viols.push(Violation::new(
                 "delivered-to-destination",
                 "ArpRouter::demux",
@@ -446,7 +468,11 @@ pub fn cfgs(tier: &str) -> Vec<(RouteCfg, Bounds)> {
     add(Shape::Line(2), Routes::Loop2, 0, 2, 1);
     add(Shape::Ring, Routes::Correct, 0, 2, 1);
     add(Shape::Ring, Routes::RingLoop, 0, 2, 1);
+    add(Shape::Line(1), Routes::Unowned, 0, 1, 1);
+    add(Shape::Line(2), Routes::Unowned, 0, 2, 1);
     if !q {
+        add(Shape::Star(3), Routes::Unowned, 1, 2, 1);
+        add(Shape::Ring, Routes::Unowned, 0, 2, 1);
         for s in 0..4 {
             for t in 0..4 {
                 if s != t {
